@@ -8,7 +8,9 @@ import vlib, buildlib as bl, histcheck as hc
 GUARDS = [("file-restore-parent-missing", hc.g_no_subdir_file_restore),
           ("cache-disabled-clobbers-results", hc.g_cache_never_disabled),
           ("alias-dep-not-in-key", hc.g_no_alias_deps)]
-PERTURB = ["delete", "delete", "modify", "truncate", "delete_parent"]
+# wrong_kind: a directory (with content) where a file output belongs / a file where a directory output belongs -- an ordinary
+# perturbation since the repair of C06-F3 (both handlers replace what is in the way)
+PERTURB = ["delete", "delete", "modify", "truncate", "delete_parent", "wrong_kind"]
 
 
 def plan(features, mode):
@@ -22,9 +24,7 @@ def plan(features, mode):
         ts = [(i, k) for i, n in enumerate(h.snap["nodes"]) if n["k"] == "t" for k in range(len(n["outs"]))]
         # perturb some output paths, then rebuild: everything must be restored, nothing executed
         for (i, k) in r.sample(ts, min(len(ts), 1 + r.below(3))):
-            kind = h.snap["nodes"][i]["outs"][k][0]
-            what = r.choice(PERTURB + (["wrong_kind"] if kind == "dir" else []))
-            h.perturb(i, k, what)
+            h.perturb(i, k, r.choice(PERTURB))
         h.build(cfg); notes.append(("noop", len(h.builds) - 1))
         # comment-only command edit: the target re-executes, its dependants are restored (early cut-off)
         tis = [i for i, n in enumerate(h.snap["nodes"]) if n["k"] == "t"]
@@ -62,6 +62,22 @@ def witness_parent_missing():
     return p
 
 
+def witness_directory_at_file_path():
+    """(was C06-F3) a directory sits where a cached file output belongs: the rebuild restores the file over it and runs nothing"""
+    def p(h, r):
+        snap = {"nodes": [{"k": "t", "pkg": "p", "name": "t", "salt": "v0", "ins": [], "glob": None, "excl": [],
+                           "outs": [("file", "o.txt"), ("file", "sub/o2.txt")], "deps": [], "fp": {}, "nocache": False, "multi": False,
+                           "beh": "n", "check": False, "comment": ""},
+                          {"k": "t", "pkg": "p", "name": "u", "salt": "v0", "ins": [], "glob": None, "excl": [],
+                           "outs": [("file", "u.txt")], "deps": [0], "fp": {}, "nocache": False, "multi": False,
+                           "beh": "n", "check": False, "comment": ""}], "files": {}}
+        h.set_sources(snap); h.build(hc.ALL_CACHE)
+        h.perturb(0, 0, "wrong_kind"); h.perturb(0, 1, "wrong_kind")
+        h.build(hc.ALL_CACHE)
+        return [("noop", len(h.builds) - 1)]
+    return p
+
+
 def witness_cache_disabled():
     def p(h, r):
         snap = {"nodes": [{"k": "t", "pkg": "p", "name": "t", "salt": "v0", "ins": [], "glob": None, "excl": [],
@@ -76,7 +92,8 @@ def witness_cache_disabled():
 
 def run(out, tier):
     n = 18 if tier == "quick" else 400
-    plans = [("witness-parent-missing", witness_parent_missing()), ("witness-cache-disabled", witness_cache_disabled())]
+    plans = [("witness-parent-missing", witness_parent_missing()), ("witness-cache-disabled", witness_cache_disabled()),
+             ("witness-directory-at-file-path", witness_directory_at_file_path())]
     clean = dict(hc.CLEAN)
     full = dict(hc.FULL); full["nocache"] = True
     for mode in ("all", "min"):
@@ -124,9 +141,10 @@ def run(out, tier):
                         bl.label(cur["nodes"][note[2]]), sorted(extra)), predicted, GUARDS)
     hc.finish(out, "C02", batch,
               "histories: build, no-op rebuild, perturbation of 1-3 output paths (deleted, parent directory deleted, modified, truncated, "
-              "file where a directory should be), rebuild, comment-only command edit, rebuild, output-relevant edit, rebuild; both "
+              "file where a directory should be, directory with content where a file should be), rebuild, comment-only command edit, rebuild, output-relevant edit, rebuild; both "
               "load_outputs modes; 'clean' stream (guards hold) and 'full' stream (aliases, sub-directory outputs, no-cache); "
-              "non-trivial = at least two source/perturb operations and two builds", oracle_evals=evals)
+              "non-trivial = at least two source/perturb operations and two builds", oracle_evals=evals,
+              extra={"perturbations": hc.perturbation_histogram(batch)})
 
 
 def replay(out, path):
